@@ -38,7 +38,8 @@ def program_sets(tier):
                          "async-def", "self-read", "import-as-cur", "try-except-cur"})
     ctl = (BIND_CTL | extra) if tier == "thorough" else scoping
     return [("gen", dict()), ("ctl", dict(size=C.SIZE[tier] + 1, only=ctl, key=("c10ctl", tier))),
-            ("sig", dict(size=1 if tier == "quick" else 2, sigs=("rich", "kwonly", "doc", "closure-default"), key=("c10sig", tier)))]
+            ("sig", dict(size=1 if tier == "quick" else 2, sigs=("rich", "kwonly", "doc", "closure-default"), key=("c10sig", tier))),
+            C.odd_set(tier)]
 
 
 def units(tier):
